@@ -317,15 +317,120 @@ def _harness(nops):
     return fn
 
 
+class _TextOut:
+    """what a text-mode file opened for writing collects"""
+
+    def __init__(self):
+        self.parts = []
+
+    def write(self, s):
+        self.parts.append(s)
+
+
+def _text_lines(content):
+    """iterate like a text-mode file opened for reading does (universal newlines: CRLF, CR and LF all end a line and
+    are handed over as LF); content is a str or a SymStr"""
+    out, cur, i, n = [], [], 0, len(content)
+    while i < n:
+        c = content[i]
+        if bool(c == '\r'):
+            if i + 1 < n and bool(content[i + 1] == '\n'):
+                i += 1
+            cur.append('\n')
+            out.append(cur)
+            cur = []
+        elif bool(c == '\n'):
+            cur.append('\n')
+            out.append(cur)
+            cur = []
+        else:
+            cur.append(c)
+        i += 1
+    if cur:
+        out.append(cur)
+    lines = []
+    for chars in out:
+        line = ''
+        for c in chars:
+            line = line + c
+        lines.append(line)
+    return lines
+
+
+def subs_roundtrip(g, names):
+    """the real Subscriptions.write followed by the real Subscriptions.read; returns (names read back, error|None)"""
+    Subscriptions = g['Subscriptions']
+    subs = Subscriptions('/m')
+    for nm in names:
+        subs.add(nm)
+    fp = _TextOut()
+    subs.write(fp)
+    content = ''
+    for part in fp.parts:
+        content = content + part
+    back = Subscriptions('/m')
+    back.read(iter(_text_lines(content)))
+    return list(back.subscribed)
+
+
+def _h_subs(n, second):
+    """an acknowledged SUBSCRIBE persists: whatever names are written to the subscriptions file are the names read
+    from it (by LSUB in the same session as well as after a restart)"""
+    def fn(eng):
+        from pysymex import fresh_str, B, AND, Outcome
+        from pysymex import symbytes
+        symbytes.SymStr.HASH_OK = True
+        name = fresh_str(eng, 'n', n, hi=0x7f)
+        names = [name] + (['x'] if second else [])
+        wit = lambda m: {'names': [name.concrete(m)] + ([[120]] if second else [])}  # noqa: E731
+        if second and n == 1 and bool(name == 'x'):
+            return Outcome(True, witness=wit, site='same name')
+        got = subs_roundtrip(_g, names)
+        if len(got) != len(names):
+            return Outcome(False, witness=wit, info='%d names written, %d read back' % (len(names), len(got)))
+        conds = []
+        for a, b in zip(got, names):
+            if len(a) != len(b):
+                return Outcome(False, witness=wit, info='a name of %d characters comes back with %d' % (len(b), len(a)))
+            conds.append(B(a == b))
+        return Outcome(AND(*conds), witness=wit, info='a subscribed name comes back changed')
+    return fn
+
+
 def harnesses(tier):
     from pysymex.runner import Harness
-    return [Harness('kill_points[ops=%d]' % n, _harness(n),
+    subs = [Harness('subscriptions_roundtrip[len=%d%s]' % (n, ',+x' if second else ''), _h_subs(n, second),
+                    {'name_len': n, 'characters': 'ASCII, symbolic', 'second_name': second}, replay='subs', task_budget=60)
+            for n in range(1, (3 if tier == 'quick' else 5) + 1) for second in (False, True)]
+    return subs + [Harness('kill_points[ops=%d]' % n, _harness(n),
                     {'operations': n, 'ops': OPS, 'kill_point': 'every file-system operation of the trace, or none',
                      'tmp_device': 'same / other (symbolic)', 'next_uid': 'symbolic'}, replay='kill', task_budget=60)
             for n in ([1] if tier == 'quick' else [1, 2])]
 
 
 def replay(harness, w):
+    if harness == 'subs':
+        from pymap.backend.maildir.subscriptions import Subscriptions
+        names = [''.join(chr(c) for c in nm) for nm in w['names']]
+        if len(set(names)) != len(names):
+            return {'violates': False}
+        # through a real text-mode file
+        import tempfile
+        import os
+        subs = Subscriptions('/m')
+        for nm in names:
+            subs.add(nm)
+        with tempfile.TemporaryDirectory() as d:
+            with open(os.path.join(d, 'subscriptions'), 'w') as fp:
+                subs.write(fp)
+            back = Subscriptions('/m')
+            with open(os.path.join(d, 'subscriptions'), 'r') as fp:
+                back.read(fp)
+        got = list(back.subscribed)
+        bad = [] if got == names else ['subscribed %r, the file gives back %r' % (names, got)]
+        return {'violates': bool(bad), 'detail': bad, 'names': names,
+                'category': 'subscriptions file: ' + ('name with CR/LF' if any(c in nm for nm in names for c in '\r\n')
+                                                      else 'name changed')}
     import types
     import pymap.concurrent as C
     import pymap.backend.maildir.io as IO
@@ -367,4 +472,6 @@ def replay(harness, w):
 
 
 def classify(harness, w, res):
+    if harness == 'subs' and any(c in (10, 13) for nm in w['names'] for c in nm):
+        return 'C15-subscriptions-crlf-name'
     return None
